@@ -165,7 +165,8 @@ class C09(PropertyCheck):
             "contiguous / strided / transposed / offset, pad value -1, 0, 7 (float or python int) and 1/2, -5/2 "
             "(float dtypes), positional / keyword / defaults-omitted calls, lens 0..T (>= 1 for "
             "reflect/replicate), pads 0..2T (reflect: < len), slices in [-T-2, 2T]^2 with forced patterns "
-            "(wholly left, wholly right, empty, inverted), boolean masks (given full, transposed, strided, "
+            "(wholly left, wholly right, empty, inverted, reflect slices starting strictly beyond the sequence end "
+            "incl. empty ones and several per batch), boolean masks (given full, transposed, strided, "
             "caller-expanded or in a broadcastable (N,1)/(1,T) shape), random_shift with chosen dyadic draws / "
             "recorded genuine draws / extreme float32 draws with proportions k/len that float32 rounds up, "
             "training and eval set directly, after toggling, and through a parent module; functional, module, "
@@ -344,7 +345,13 @@ class C09(PropertyCheck):
                 for n in range(N):
                     L = eff[n]
                     k = rng.random()
-                    if k < 0.45:
+                    if mode == "reflect" and L >= 3 and rng.random() < 0.2:
+                        # the reflect special case, forced: the slice starts STRICTLY beyond the end of the
+                        # sequence (offset = s - L > 0) and stays legal (e - L < L); one time in four it is
+                        # empty / inverted there (the code's `right_pad -= offset` then goes negative)
+                        s = rng.randint(L + 1, 2 * L - 2)
+                        e = rng.randint(s + 1, 2 * L - 1) if rng.random() < 0.75 else s - rng.randint(0, 2)
+                    elif k < 0.45:
                         s, e = rng.randint(-T - 2, 2 * T), rng.randint(-T - 2, 2 * T)
                     elif k < 0.6:      # wholly right of the sequence
                         s = rng.randint(L, 2 * T)
@@ -1164,9 +1171,12 @@ class C09(PropertyCheck):
         self.rounding_hypotheses(rng, tier, report)
 
     def rounding_hypotheses(self, rng, tier, report):
-        """`C09_shift_amount_rounded` assumes `Rounding rnd` (monotone, exact on naturals, a product with a
-        representable u < 1 never rounds back up to the other factor). Sampled here on IEEE float32 and
-        float64 themselves (numpy), adversarial values included — evidence for the hypothesis, not a proof."""
+        """`C09_shift_amount_rounded` assumes `Rounding B rnd` with B = 2^prec (monotone, idempotent, exact on
+        the naturals UP TO 2^prec, and for a = rnd z >= 1 a product with a representable u < 1 never rounds
+        back up to a). Sampled here on IEEE float32 and float64 themselves (numpy), adversarial values included
+        (powers of two, the largest draws, the bound 2^prec itself; mul_lt is sampled on all positive normal
+        a, more than the hypothesis asks) — evidence for the hypothesis, not a proof. 2^prec + 1 is checked
+        NOT to be exact: the unbounded form of nat_exact an earlier version assumed is false."""
         import numpy as np
         n = 4000 if tier == "quick" else 40000
         bad = []
@@ -1195,9 +1205,13 @@ class C09(PropertyCheck):
                 if Fraction(float(a)) * Fraction(float(u)) <= Fraction(float(c)) * Fraction(float(d)) \
                         and not ft(a * u) <= ft(c * d):
                     bad.append(("mono_mul", ft.__name__, float(a), float(u), float(c), float(d)))
-                m = rng.randint(0, (1 << prec) - 1)
+                m = rng.randint(0, 1 << prec) if i % 16 else (1 << prec)
                 if Fraction(float(ft(m))) != m:
                     bad.append(("nat_exact", ft.__name__, m))
+                if ft(float(ft(a * u))) != ft(a * u):
+                    bad.append(("idem", ft.__name__, float(a), float(u)))
+            if Fraction(float(ft((1 << prec) + 1))) == (1 << prec) + 1:
+                bad.append(("nat_exact_unbounded_would_hold", ft.__name__))
         report["extra"]["rounding_hypotheses_sampled"] = {"samples_per_format": n, "violations": len(bad)}
         if bad:
             raise AssertionError(f"IEEE arithmetic violates a hypothesis of C09_shift_amount_rounded: {bad[:3]}")
@@ -1258,9 +1272,14 @@ class C09(PropertyCheck):
             lens = case["lens"] or [T] * case["N"]
             if case["lens"] is None:
                 t.append("chunk.lens=None")
+            if case["mode"] == "reflect" and sum(1 for (s, e), n in zip(case["slices"], lens)
+                                                 if e > s > n) >= 2:
+                t.append("chunk.reflect.special_case_rows>=2")
             for (s, e), n in zip(case["slices"], lens):
                 if e <= s:
                     t.append("chunk.empty_or_inverted")
+                    if case["mode"] == "reflect" and s > n:
+                        t.append("chunk.reflect.special_case_offset>0.empty")
                 elif s >= n:
                     t.append(f"chunk.{case['mode']}.wholly_right")
                     if case["mode"] == "reflect" and s > n:
